@@ -253,6 +253,50 @@ def run_ops_case(c, agg, loaded, out):
     return out
 
 
+def run_gops_case(c, agg, loaded, out):
+    """query / order_by / slice / grid_searches / children / best_fits in any order; every predicate is built when
+    its operation is applied"""
+    preds = [o[1] for o in c["ops"] if o[0] == "query"]
+    out["direct_ops"] = [sorted(f.id for f, inst in loaded if direct(p, f, inst)) for p in preds]
+    res = agg
+    k = 0
+    for o in c["ops"]:
+        if o[0] == "query":
+            try:
+                q = build_query(agg, o[1])
+                res = res.query(q) if k % 2 == 0 else res(q)
+            except BaseException as e:  # noqa
+                return fail(out, e, "construct")
+            k += 1
+        elif o[0] == "order":
+            try:
+                res = res.order_by(getattr(agg.search, o[1]), reverse=o[2])
+            except BaseException as e:  # noqa
+                return fail(out, e, "construct")
+        elif o[0] == "slice":
+            try:
+                res = res[slice(o[1], o[2], o[3])]
+            except BaseException as e:  # noqa
+                return fail(out, e, "execute")
+        else:
+            try:
+                res = res.grid_searches() if o[0] == "grid" else res.children() if o[0] == "children" else res.best_fits()
+            except AttributeError as e:
+                return fail(out, e, "grid")
+            except BaseException as e:  # noqa
+                return fail(out, e, "construct")
+    try:
+        out["ids"] = [f.id for f in res.fits]
+        out["len"] = len(res)
+        out["iter_ids"] = [f.id for f in res]
+        i = c.get("index")
+        if i is not None and -len(out["ids"]) <= i < len(out["ids"]):
+            out["index_id"] = res[i].id
+    except BaseException as e:  # noqa
+        return fail(out, e, "execute")
+    return out
+
+
 def run_case(c):
     (engine, session, loaded), fresh = session_for(c["db"])
     out = {}
@@ -263,6 +307,8 @@ def run_case(c):
     agg = Aggregator(session, top_level_only=top_only)
     if c["kind"] == "ops":
         return run_ops_case(c, agg, loaded, out)
+    if c["kind"] == "grid":
+        return run_gops_case(c, agg, loaded, out)
     # the predicate evaluated directly on every stored fit
     out["direct"] = sorted(f.id for f, inst in loaded if direct(c["pred"], f, inst))
     chain = bool(c.get("chain")) and c["pred"][0] == "and"
